@@ -692,6 +692,418 @@ fn regime<S: Dom>(t: &mut Tape, cx: &mut Cx) -> CaseResult {
     Ok(())
 }
 
+// ---------------------------------------------------------------------------------------------------------
+// Structured receivers of the chaining forms: m.rotated_k(a) = rotation_k(a) * m for receivers whose STRUCTURE
+// (diagonal, triangular, permutation, translation, affine last row, zero, the rotation itself, ...) a fast path
+// could key on. Oracle: plain triple loop over the builder's output and the receiver's entries.
+// ---------------------------------------------------------------------------------------------------------
+
+const NKINDS: usize = 20;
+const K_ZERO: usize = 0;
+const K_IDENT: usize = 1;
+const K_UDIAG: usize = 2;
+const K_DIAG: usize = 3;
+const K_DIAG0: usize = 4;
+const K_TRANSL: usize = 9;
+const K_ROT: usize = 15;
+const K_ROT_T: usize = 16;
+const KIND_LABELS: [&str; NKINDS] = [
+    "receiver: zero matrix",
+    "receiver: identity",
+    "receiver: uniform diagonal",
+    "receiver: non-uniform diagonal",
+    "receiver: diagonal with a zero entry",
+    "receiver: upper triangular",
+    "receiver: lower triangular",
+    "receiver: strictly triangular",
+    "receiver: (signed) permutation",
+    "receiver: translation (identity + last column)",
+    "receiver: identity + last row",
+    "receiver: exactly one off-diagonal entry",
+    "receiver: last row e_N",
+    "receiver: last column e_N",
+    "receiver: last row and column e_N",
+    "receiver: the rotation being applied",
+    "receiver: transpose of the rotation being applied",
+    "receiver: single non-zero row / column",
+    "receiver: symmetric / antisymmetric",
+    "receiver: dense",
+];
+
+fn nzv<S: Dom>(t: &mut Tape) -> S {
+    let x = S::any(t, 9);
+    if x.is_zero() {
+        S::i(2)
+    } else {
+        x
+    }
+}
+
+/// An N x N receiver of the given structure kind (K_ROT / K_ROT_T are filled in per chaining form).
+fn structured<S: Dom, const N: usize>(t: &mut Tape, kind: usize) -> [[S; N]; N] {
+    let (z, o) = (S::zero(), S::one());
+    let mut m = [[z; N]; N];
+    let primes = [2i64, 3, 5, 7];
+    match kind {
+        K_ZERO => {}
+        K_IDENT | K_ROT | K_ROT_T => {
+            for i in 0..N {
+                m[i][i] = o;
+            }
+        }
+        K_UDIAG => {
+            let d = nzv::<S>(t);
+            for i in 0..N {
+                m[i][i] = d;
+            }
+        }
+        K_DIAG | K_DIAG0 => {
+            // pairwise distinct magnitudes (2,3,5,7 in some rotation, times a common factor), signs from the tape
+            let r = t.below(4);
+            let f = if t.bool() { o } else { nzv::<S>(t) };
+            for i in 0..N {
+                let d = S::i(primes[(i + r) % 4]) * f;
+                m[i][i] = if t.chance(64) { -d } else { d };
+            }
+            if kind == K_DIAG0 {
+                let i = t.below(N);
+                m[i][i] = z;
+            }
+        }
+        5 | 6 | 7 => {
+            let upper = if kind == 7 { t.bool() } else { kind == 5 };
+            for i in 0..N {
+                for j in 0..N {
+                    let inside = if upper { i < j } else { i > j } || (kind != 7 && i == j);
+                    if inside {
+                        m[i][j] = nzv::<S>(t);
+                    }
+                }
+            }
+        }
+        8 => {
+            let mut perm = [0usize; N];
+            for (i, p) in perm.iter_mut().enumerate() {
+                *p = i;
+            }
+            for i in (1..N).rev() {
+                let j = t.below(i + 1);
+                perm.swap(i, j);
+            }
+            let signed = t.chance(96);
+            for i in 0..N {
+                m[i][perm[i]] = if signed && t.bool() { -o } else { o };
+            }
+        }
+        K_TRANSL | 10 => {
+            for i in 0..N {
+                m[i][i] = o;
+            }
+            for i in 0..N - 1 {
+                let x = nzv::<S>(t);
+                if kind == K_TRANSL {
+                    m[i][N - 1] = x;
+                } else {
+                    m[N - 1][i] = x;
+                }
+            }
+        }
+        11 => {
+            match t.below(3) {
+                0 => {}
+                1 => {
+                    for i in 0..N {
+                        m[i][i] = o;
+                    }
+                }
+                _ => {
+                    for i in 0..N {
+                        m[i][i] = S::i(primes[i % 4]);
+                    }
+                }
+            }
+            let i = t.below(N);
+            let j = (i + 1 + t.below(N - 1)) % N;
+            m[i][j] = nzv::<S>(t);
+        }
+        12 | 13 | 14 => {
+            for i in 0..N {
+                for j in 0..N {
+                    m[i][j] = S::any(t, 5);
+                }
+            }
+            for i in 0..N {
+                let e = if i == N - 1 { o } else { z };
+                if kind != 13 {
+                    m[N - 1][i] = e;
+                }
+                if kind != 12 {
+                    m[i][N - 1] = e;
+                }
+            }
+        }
+        17 => {
+            let row = t.bool();
+            let i = t.below(N);
+            for j in 0..N {
+                let x = nzv::<S>(t);
+                if row {
+                    m[i][j] = x;
+                } else {
+                    m[j][i] = x;
+                }
+            }
+        }
+        18 => {
+            let anti = t.bool();
+            for i in 0..N {
+                for j in i..N {
+                    let x = S::any(t, 5);
+                    if i == j {
+                        m[i][j] = if anti { z } else { x };
+                    } else {
+                        m[i][j] = x;
+                        m[j][i] = if anti { -x } else { x };
+                    }
+                }
+            }
+        }
+        _ => {
+            for i in 0..N {
+                for j in 0..N {
+                    m[i][j] = S::any(t, 5);
+                }
+            }
+        }
+    }
+    // floats: sometimes the whole receiver in another unit of length (exact power of two)
+    if !S::EXACT && t.chance(48) {
+        let p = p2::<S>(operand_exp::<S>(t));
+        for r in m.iter_mut() {
+            for x in r.iter_mut() {
+                *x = *x * p;
+            }
+        }
+    }
+    m
+}
+
+/// Tolerance factor of the chaining checks: vek's product is an n-term (fused) multiply-add chain, the oracle an
+/// n-term dot product with separate roundings: each within n eps sum|r_ik||m_kj| of the exact value, n <= 4.
+const KC: f64 = 8.0;
+
+/// got == r * m (plain triple loop): exactly in `Rat`, within KC eps sum_k |r_ik||m_kj| entry-wise in floats.
+fn chain_ok<S: Dom, const N: usize>(cx: &mut Cx, got: &[[S; N]; N], r: &[[S; N]; N], m: &[[S; N]; N], mags: &mut Vec<f64>) -> Result<(), String> {
+    for i in 0..N {
+        for j in 0..N {
+            let mut want = S::zero();
+            let mut mag = 0.0f64;
+            for k in 0..N {
+                want = want + r[i][k] * m[k][j];
+                mag += (r[i][k] * m[k][j]).f().abs();
+            }
+            mags.push(mag);
+            cx.count();
+            let ok = if S::EXACT {
+                got[i][j] == want
+            } else {
+                let d = (got[i][j].f() - want.f()).abs();
+                let tol = KC * S::eps() * mag;
+                if d > 0.0 && tol > 0.0 {
+                    cx.note_err(d / tol);
+                }
+                d <= tol
+            };
+            if !ok {
+                return Err(format!("element ({},{}): got {:?}, want {:?} = sum_k r[{}][k] m[k][{}] (sum of magnitudes {:e})\n rotation {:?}\n receiver {:?}\n got      {:?}", i, j, got[i][j], want, i, j, mag, r, m, got));
+            }
+        }
+    }
+    Ok(())
+}
+
+fn flat<S: Copy, const N: usize>(m: &[[S; N]; N]) -> Vec<S> {
+    m.iter().flat_map(|r| r.iter().copied()).collect()
+}
+
+/// Hamilton product p * q of quaternions given as (x, y, z, w), and the sums of the magnitudes of the four terms.
+fn ham<S: Dom>(p: &[S; 4], q: &[S; 4]) -> ([S; 4], [f64; 4]) {
+    let (px, py, pz, pw) = (p[0], p[1], p[2], p[3]);
+    let (qx, qy, qz, qw) = (q[0], q[1], q[2], q[3]);
+    let terms = [
+        [pw * qx, px * qw, py * qz, -(pz * qy)],
+        [pw * qy, -(px * qz), py * qw, pz * qx],
+        [pw * qz, px * qy, -(py * qx), pz * qw],
+        [pw * qw, -(px * qx), -(py * qy), -(pz * qz)],
+    ];
+    let mut v = [S::zero(); 4];
+    let mut a = [0.0f64; 4];
+    for i in 0..4 {
+        for x in terms[i] {
+            v[i] = v[i] + x;
+            a[i] += x.f().abs();
+        }
+    }
+    (v, a)
+}
+
+fn receivers<S: Dom>(t: &mut Tape, cx: &mut Cx) -> CaseResult {
+    let a = gen_angle::<S>(t, cx);
+    let (sn, cs) = (a.sin(), a.cos());
+    let (axis, _unit) = gen_axis::<S>(t, cx);
+    let ax = vk::v3(&axis);
+    let (k4, k3, k2) = (t.below(NKINDS), t.below(NKINDS), t.below(NKINDS));
+    cx.label(KIND_LABELS[k4]);
+    cx.label(KIND_LABELS[k3]);
+    cx.label(KIND_LABELS[k2]);
+    let mut b4: [[S; 4]; 4] = structured(t, k4);
+    let b3: [[S; 3]; 3] = structured(t, k3);
+    let b2: [[S; 2]; 2] = structured(t, k2);
+    // build diagonal / translation / identity / zero receivers through vek's own constructors where they exist
+    let ctor = t.bool();
+    let t_alt = t.bool();
+    if k4 == K_DIAG && t_alt {
+        // the shape Mat4::scaling_3d produces: diag(x, y, z, 1)
+        b4[3][3] = S::one();
+    }
+    cx.set_nontrivial(!sn.is_zero() && !cs.is_zero() && k4 != K_ZERO);
+    sample!(cx, "{} angle={:?} axis={:?} kinds=({}, {}, {}) m4={:?} m3={:?} m2={:?}", S::NAME, a, axis, KIND_LABELS[k4], KIND_LABELS[k3], KIND_LABELS[k2], b4, b3, b2);
+    let diag = |m: &dyn Fn(usize) -> S, n: usize| -> [S; 4] {
+        let mut d = [S::zero(); 4];
+        for i in 0..n {
+            d[i] = m(i);
+        }
+        d
+    };
+    let d4 = diag(&|i| b4[i][i], 4);
+    let d3 = diag(&|i| b3[i][i], 3);
+    let d2 = diag(&|i| b2[i][i], 2);
+
+    let mut mags: Vec<f64> = Vec::with_capacity(208);
+    // one chaining form on one receiver: product, in-place twin; the result is kept for the layout comparison
+    macro_rules! form {
+        ($out:ident, $M:ty, $base:expr, $kind:expr, $build:expr, $ret:ident, $inp:ident, ($($arg:expr),*), $($what:tt)*) => {{
+            let r = $build.to_arr();
+            let recv: $M = match $kind {
+                K_ROT => <$M>::from_arr(&r),
+                K_ROT_T => <$M>::from_arr(&rf::transpose(&r)),
+                _ => $base,
+            };
+            let m = recv.to_arr();
+            let got = recv.$ret($($arg),*).to_arr();
+            want_ok!(chain_ok::<S, _>(cx, &got, &r, &m, &mut mags), $($what)*);
+            let mut x = recv;
+            x.$inp($($arg),*);
+            check_eq!(cx, x.to_arr(), got, "{} in place == returning, receiver {:?}", format!($($what)*), m);
+            $out.extend(flat(&got));
+        }};
+    }
+    macro_rules! layout {
+        ($l:ident, $n:expr, $out:ident) => {{
+            // receivers of this layout; a vek constructor is used only if it yields exactly the planned entries
+            let mut via = |c: $l::Mat4<S>| if ctor && c.to_arr() == b4 { cx.label("receiver built by a vek constructor (zero / identity / broadcast_diagonal / with_diagonal / scaling_* / translation_* / shearing_x)"); c } else { $l::Mat4::<S>::from_arr(&b4) };
+            let m4 = match k4 {
+                K_ZERO => via($l::Mat4::<S>::zero()),
+                K_IDENT => via($l::Mat4::<S>::identity()),
+                K_UDIAG => via($l::Mat4::<S>::broadcast_diagonal(d4[0])),
+                K_DIAG | K_DIAG0 => via(if d4[3] == S::one() { $l::Mat4::<S>::scaling_3d(Vec3 { x: d4[0], y: d4[1], z: d4[2] }) } else { $l::Mat4::<S>::with_diagonal(vk::v4(&d4)) }),
+                K_TRANSL => via($l::Mat4::<S>::translation_3d(Vec3 { x: b4[0][3], y: b4[1][3], z: b4[2][3] })),
+                _ => $l::Mat4::<S>::from_arr(&b4),
+            };
+            let mut via = |c: $l::Mat3<S>| if ctor && c.to_arr() == b3 { cx.label("receiver built by a vek constructor (zero / identity / broadcast_diagonal / with_diagonal / scaling_* / translation_* / shearing_x)"); c } else { $l::Mat3::<S>::from_arr(&b3) };
+            let m3 = match k3 {
+                K_ZERO => via($l::Mat3::<S>::zero()),
+                K_IDENT => via($l::Mat3::<S>::identity()),
+                K_UDIAG => via($l::Mat3::<S>::broadcast_diagonal(d3[0])),
+                K_DIAG | K_DIAG0 => via(if t_alt { $l::Mat3::<S>::scaling_3d(Vec3 { x: d3[0], y: d3[1], z: d3[2] }) } else { $l::Mat3::<S>::with_diagonal(Vec3 { x: d3[0], y: d3[1], z: d3[2] }) }),
+                K_TRANSL => via($l::Mat3::<S>::translation_2d(Vec2 { x: b3[0][2], y: b3[1][2] })),
+                _ => $l::Mat3::<S>::from_arr(&b3),
+            };
+            let mut via = |c: $l::Mat2<S>| if ctor && c.to_arr() == b2 { cx.label("receiver built by a vek constructor (zero / identity / broadcast_diagonal / with_diagonal / scaling_* / translation_* / shearing_x)"); c } else { $l::Mat2::<S>::from_arr(&b2) };
+            let m2 = match k2 {
+                K_ZERO => via($l::Mat2::<S>::zero()),
+                K_IDENT => via($l::Mat2::<S>::identity()),
+                K_UDIAG => via($l::Mat2::<S>::broadcast_diagonal(d2[0])),
+                K_DIAG | K_DIAG0 => via(if t_alt { $l::Mat2::<S>::scaling_2d(Vec2 { x: d2[0], y: d2[1] }) } else { $l::Mat2::<S>::with_diagonal(Vec2 { x: d2[0], y: d2[1] }) }),
+                K_TRANSL => via($l::Mat2::<S>::shearing_x(b2[0][1])),
+                _ => $l::Mat2::<S>::from_arr(&b2),
+            };
+            form!($out, $l::Mat4<S>, m4, k4, $l::Mat4::<S>::rotation_x(a), rotated_x, rotate_x, (a), "{} Mat4::rotated_x = rotation_x * m [{}]", $n, KIND_LABELS[k4]);
+            form!($out, $l::Mat4<S>, m4, k4, $l::Mat4::<S>::rotation_y(a), rotated_y, rotate_y, (a), "{} Mat4::rotated_y = rotation_y * m [{}]", $n, KIND_LABELS[k4]);
+            form!($out, $l::Mat4<S>, m4, k4, $l::Mat4::<S>::rotation_z(a), rotated_z, rotate_z, (a), "{} Mat4::rotated_z = rotation_z * m [{}]", $n, KIND_LABELS[k4]);
+            form!($out, $l::Mat4<S>, m4, k4, $l::Mat4::<S>::rotation_3d(a, ax), rotated_3d, rotate_3d, (a, ax), "{} Mat4::rotated_3d = rotation_3d * m [{}]", $n, KIND_LABELS[k4]);
+            form!($out, $l::Mat3<S>, m3, k3, $l::Mat3::<S>::rotation_x(a), rotated_x, rotate_x, (a), "{} Mat3::rotated_x = rotation_x * m [{}]", $n, KIND_LABELS[k3]);
+            form!($out, $l::Mat3<S>, m3, k3, $l::Mat3::<S>::rotation_y(a), rotated_y, rotate_y, (a), "{} Mat3::rotated_y = rotation_y * m [{}]", $n, KIND_LABELS[k3]);
+            form!($out, $l::Mat3<S>, m3, k3, $l::Mat3::<S>::rotation_z(a), rotated_z, rotate_z, (a), "{} Mat3::rotated_z = rotation_z * m [{}]", $n, KIND_LABELS[k3]);
+            form!($out, $l::Mat3<S>, m3, k3, $l::Mat3::<S>::rotation_3d(a, ax), rotated_3d, rotate_3d, (a, ax), "{} Mat3::rotated_3d = rotation_3d * m [{}]", $n, KIND_LABELS[k3]);
+            form!($out, $l::Mat2<S>, m2, k2, $l::Mat2::<S>::rotation_z(a), rotated_z, rotate_z, (a), "{} Mat2::rotated_z = rotation_z * m [{}]", $n, KIND_LABELS[k2]);
+        }};
+    }
+    let mut rows: Vec<S> = Vec::with_capacity(104);
+    let mut cols: Vec<S> = Vec::with_capacity(104);
+    layout!(rm, "row-major", rows);
+    layout!(cm, "col-major", cols);
+    // the layouts are two storage orders of the same mathematical matrix: same result, entry for entry (exactly in
+    // Rat; floats: both are within KC eps sum|r_ik||m_kj| of the exact product, so within twice that of each other)
+    check!(cx, rows.len() == cols.len() && mags.len() == 2 * rows.len(), "internal: result lists differ in length");
+    for i in 0..rows.len() {
+        cx.count();
+        let ok = if S::EXACT { rows[i] == cols[i] } else { (rows[i].f() - cols[i].f()).abs() <= 2.0 * KC * S::eps() * mags[i].max(mags[rows.len() + i]) };
+        if !ok {
+            fail!("row-major and column-major chaining results differ at flat position {} (order: Mat4 x,y,z,3d; Mat3 x,y,z,3d; Mat2 z; row by row): {:?} vs {:?}\n row-major {:?}\n col-major {:?}", i, rows[i], cols[i], rows, cols);
+        }
+    }
+
+    // --- quaternion receivers: q.rotated_k(a) = rotation_k(a) * q (Hamilton product)
+    let qk = t.below(10);
+    let qrot = Quaternion::<S>::rotation_3d(a, ax);
+    let (z, o) = (S::zero(), S::one());
+    let q0: [S; 4] = match qk {
+        0 => [z, z, z, o],
+        1 => [z, z, z, z],
+        2 => [z, z, z, -o],
+        3 => {
+            let mut q = [z; 4];
+            q[t.below(3)] = if t.bool() { -o } else { o };
+            q
+        }
+        4 => [qrot.x, qrot.y, qrot.z, qrot.w],
+        5 => [-qrot.x, -qrot.y, -qrot.z, qrot.w],
+        6 => [z, z, z, nzv::<S>(t)],
+        7 => {
+            let mut q = [z; 4];
+            q[t.below(3)] = nzv::<S>(t);
+            q
+        }
+        _ => [S::any(t, 5), S::any(t, 5), S::any(t, 5), S::any(t, 5)],
+    };
+    cx.label(["quaternion receiver: identity", "quaternion receiver: zero", "quaternion receiver: -identity", "quaternion receiver: +- unit i/j/k", "quaternion receiver: the rotation itself", "quaternion receiver: conjugate of the rotation", "quaternion receiver: real non-unit", "quaternion receiver: pure single component", "quaternion receiver: dense", "quaternion receiver: dense"][qk]);
+    let q = Quaternion::<S> { x: q0[0], y: q0[1], z: q0[2], w: q0[3] };
+    let qarr = |q: Quaternion<S>| [q.x, q.y, q.z, q.w];
+    macro_rules! qform {
+        ($build:expr, $ret:ident, $inp:ident, ($($arg:expr),*), $what:expr) => {{
+            let p = qarr($build);
+            let got = qarr(q.$ret($($arg),*));
+            let (want, mag) = ham(&p, &q0);
+            for i in 0..4 {
+                cx.count();
+                let ok = if S::EXACT { got[i] == want[i] } else { (got[i].f() - want[i].f()).abs() <= KC * S::eps() * mag[i] };
+                if !ok {
+                    fail!("{}: component {}: got {:?}, want {:?} (rotation quaternion {:?}, receiver {:?}; xyzw order)", $what, i, got, want, p, q0);
+                }
+            }
+            let mut x = q;
+            x.$inp($($arg),*);
+            check_eq!(cx, qarr(x), got, "{} in place == returning (receiver {:?})", $what, q0);
+        }};
+    }
+    qform!(Quaternion::<S>::rotation_x(a), rotated_x, rotate_x, (a), "Quaternion::rotated_x = rotation_x * q");
+    qform!(Quaternion::<S>::rotation_y(a), rotated_y, rotate_y, (a), "Quaternion::rotated_y = rotation_y * q");
+    qform!(Quaternion::<S>::rotation_z(a), rotated_z, rotate_z, (a), "Quaternion::rotated_z = rotation_z * q");
+    qform!(Quaternion::<S>::rotation_3d(a, ax), rotated_3d, rotate_3d, (a, ax), "Quaternion::rotated_3d = rotation_3d * q");
+    Ok(())
+}
+
 /// Additivity for a common axis, and quaternion chained variants.
 fn additive<S: Dom>(t: &mut Tape, cx: &mut Cx) -> CaseResult {
     let (a, b, ab) = match gen_angle_pair::<S>(t, cx) {
@@ -772,17 +1184,22 @@ pub fn property() -> Property {
     let r = "float regimes, every builder against a reference evaluated in f64 from the same float arguments: axis = direction (integer / coordinate axis / one dominant component / random) times an exact power of two from 2^-48..2^48 (f32), 2^-480..2^480 (f64) incl. lengths around eps and sqrt(eps); angle zero / small (to 2^-40, 2^-200) / next to a multiple of pi/2 / many turns (to 2^30, 2^60 rad); operands (vector, matrix) times an exact power of two. Matrix elements to 16 eps (axis-aligned) / 64 eps (arbitrary axis, quaternion), the rotation vector (R - R^T)/2 relative to |sin angle|, products relative to the operand's magnitude; axis given as Vec3 / Vec4 (w ignored) / array / tuple; Mat2/3/4 both layouts, Quaternion rotation_*/rotated_*/rotate_*, Vec2::rotated_z/rotate_z";
     tape!("regimes-f64", r, 320, 50_000, 1_500_000, regime::<f64>);
     tape!("regimes-f32", r, 320, 50_000, 1_500_000, regime::<f32>);
+    let c = "structured receivers of the chaining forms: m.rotated_x/y/z/3d(a) and in-place rotate_* for Mat4, Mat3 (and Mat2 rotated_z/rotate_z) in BOTH layouts on receivers that are zero / identity / uniform, non-uniform and singular diagonal (built by with_diagonal, broadcast_diagonal, scaling_3d/2d) / upper, lower, strictly triangular / (signed) permutation / pure translation (translation_3d/2d, shearing_x) / identity + last row / exactly one off-diagonal entry / last row and/or column e_N / the rotation being applied or its transpose / single row or column / symmetric, antisymmetric / dense; result = plain triple loop over the builder's output and the receiver's entries (exact in Rat, 8 eps sum|r_ik||m_kj| in floats), in-place == returning, row-major result == column-major result entry for entry; quaternion receivers (identity, zero, -identity, +-i/j/k, the rotation, its conjugate, non-unit) against the Hamilton product";
+    tape!("receivers-rat", c, 256, 10_000, 250_000, receivers::<Rat>);
+    tape!("receivers-f64", c, 512, 30_000, 1_000_000, receivers::<f64>);
+    tape!("receivers-f32", c, 512, 30_000, 1_000_000, receivers::<f32>);
     let b = "rotations about a common axis compose additively (Mat2/3/4, both layouts, axis-aligned and arbitrary axis; floats incl. small and many-turn angles with an exact float sum, tiny/huge axes); quaternion chained/in-place variants equal the Hamilton product with the constructor; q*Vec4 keeps w";
     tape!("additive-rat", b, 48, 20_000, 500_000, additive::<Rat>);
     tape!("additive-f64", b, 128, 20_000, 500_000, additive::<f64>);
     tape!("additive-f32", b, 128, 20_000, 500_000, additive::<f32>);
     Property {
         id: "C04",
-        rule: "angles: registered rational-trigonometry angles (tan(theta/4) rational, so sin/cos of theta and theta/2 are exact) for Rat; floats: random and special angles in (-2pi,2pi) in half of the cases, otherwise a regime angle {+-0.0, small 2^-e(1+u) down to 2^-40 (f32) / 2^-200 (f64), q*pi/2 +- 2^-e, many turns 2^e(1+u) up to 2^30 (f32) / 2^60 (f64) rad}; sin/cos are always those of the float argument itself; angle pairs of the additive checks lie on a common power-of-two grid so that the float sum is exact; axes: Pythagorean integer vectors times a rational factor of either sign (exact unit direction known), arbitrary float directions, coordinate axes and directions with one dominant component, in float domains times an EXACT power of two 2^k, |k| <= 48 (f32) / 480 (f64), stratified over {1, 2^+-10, length ~ sqrt(eps), ~ eps, << eps, ~ 1/sqrt(eps), ~ 1/eps, >> 1/eps, range limit}; rotated vectors / matrices of the regimes-* checks times 2^k, |k| <= 60 (f32) / 400 (f64); non-trivial = sin != 0, cos not in {0,+-1}, axis with >= 2 non-zero components (rotations-*, additive-*); regimes-*: sin != 0, cos != 0 and at least one of {angle regime not ordinary, axis exponent beyond +-10, operand exponent beyond +-12}; distinct = distinct consumed tape prefix",
+        rule: "angles: registered rational-trigonometry angles (tan(theta/4) rational, so sin/cos of theta and theta/2 are exact) for Rat; floats: random and special angles in (-2pi,2pi) in half of the cases, otherwise a regime angle {+-0.0, small 2^-e(1+u) down to 2^-40 (f32) / 2^-200 (f64), q*pi/2 +- 2^-e, many turns 2^e(1+u) up to 2^30 (f32) / 2^60 (f64) rad}; sin/cos are always those of the float argument itself; angle pairs of the additive checks lie on a common power-of-two grid so that the float sum is exact; axes: Pythagorean integer vectors times a rational factor of either sign (exact unit direction known), arbitrary float directions, coordinate axes and directions with one dominant component, in float domains times an EXACT power of two 2^k, |k| <= 48 (f32) / 480 (f64), stratified over {1, 2^+-10, length ~ sqrt(eps), ~ eps, << eps, ~ 1/sqrt(eps), ~ 1/eps, >> 1/eps, range limit}; rotated vectors / matrices of the regimes-* checks times 2^k, |k| <= 60 (f32) / 400 (f64); non-trivial = sin != 0, cos not in {0,+-1}, axis with >= 2 non-zero components (rotations-*, additive-*); regimes-*: sin != 0, cos != 0 and at least one of {angle regime not ordinary, axis exponent beyond +-10, operand exponent beyond +-12}; receivers-*: the receiver of every chaining form is drawn, independently per size (4x4, 3x3, 2x2), from 20 structure kinds {zero, identity, uniform / non-uniform / singular diagonal, upper / lower / strictly triangular, (signed) permutation, translation, identity + last row, one off-diagonal entry, last row and/or column e_N, the rotation being applied, its transpose, single row or column, (anti)symmetric, dense}, in half of the cases through vek's own constructors where one yields exactly those entries; floats sometimes times an exact power of two; quaternion receivers from 9 kinds; non-trivial = sin != 0, cos != 0 and the 4x4 receiver is not the zero matrix; distinct = distinct consumed tape prefix",
         assumptions: &[
             "rustc and the proptest runner/shrinker are trusted",
             "oracle: axis-angle (Rodrigues) definition and Hamilton table in vkit::refmath; sin/cos come from the scalar domain (registered angles for Rat), not from vek; regimes-*: the axis-angle matrix, the quaternion matrix and the 2D rotation are evaluated in f64 (std sin/cos of the float argument converted exactly to f64) from the unit direction computed in f64 before the exact power-of-two scaling",
             "float tolerance 256*eps*max(1,|v|) in rotations-* / additive-*; regimes-*: 16 eps per element of an axis-aligned builder (one libm call), 64 eps per element for an arbitrary axis and for matrices from quaternions (<= 12 eps by operation count; largest ratio observed/tolerance 0.1 in 3*10^6 cases), the rotation vector (R - R^T)/2 to the same factors times (|sin| + (1 - cos)), i.e. relative to |sin| for small angles, products with an operand 4x these factors times the operand's largest element (never max(1, .))",
+            "receivers-*: oracle = plain triple loop sum_k r[i][k] m[k][j] over the entries of the same layout's builder output r and of the receiver m (read through the public rows / cols fields); exact in Rat; floats 8 eps sum_k |r_ik||m_kj| per entry (n-term fused chain vs n separately rounded terms, n <= 4; largest ratio observed/tolerance 0.23), exact zero demanded where every term is zero; the two layouts are compared entry for entry exactly in Rat and to twice that tolerance in floats (summation order is left free); the builders themselves are judged by the other checks",
             "excluded, because a normalisation by sqrt(x^2+y^2+z^2) (the documented `normalized()`) loses all meaning there: axes whose SQUARED length or squared non-zero components leave the normal range (|axis| outside about 2^-55..2^55 in f32, 2^-487..2^487 in f64), zero axes, non-finite angles or axes; angles below 2^-40 (f32) / 2^-200 (f64) other than +-0.0 and operands beyond 2^+-60 / 2^+-400 (sin(angle) * length could be subnormal)",
             "not asserted: the sign of the quaternion (q and -q are the same rotation), the values of cos elements beyond an absolute eps (1 - cos of a small angle is not representable next to 1), bit-identity between axis lengths (only closeness to the reference), except that Vec3 / Vec4 / array / tuple forms of the SAME axis and in-place vs returning forms must be identical",
         ],
